@@ -308,6 +308,10 @@ func makePageFrom(seed uint64, nodes int, start int) *page {
 	// safe content directly under body is still safe: body itself is never excluded; but link-dense
 	// detection applies to div/section/ul/ol only, and our safe leaves are mostly not links
 	g.content(sim.MaxInt(1, nodes/3), true, 0, false)
+	// a paragraph directly in <body>: whatever the draws above produced (possibly only
+	// scripts and styles, which the wrapper rule ignores), the <div> below is then never
+	// the body's single wrapper, so a <header>/<footer> inside it is ordinary content
+	g.b.WriteString("<p>" + g.text(true, false) + "</p>")
 	g.b.WriteString("<div>")
 	first := len(g.leaves)
 	g.content(sim.MaxInt(1, nodes/3), true, 1, false)
